@@ -43,8 +43,20 @@ def run(gen_path, rlimit=30, threads=8, extra=(), timeout=900, multiple_errors=2
            '--num-threads', str(threads)] + list(extra)
     t0 = time.time()
     try:
-        p = subprocess.run(cmd, cwd=os.path.dirname(gen_path), capture_output=True, text=True,
-                           timeout=timeout)
+        # own process group, so that a timeout also takes the solver processes down
+        import signal
+        pp = subprocess.Popen(cmd, cwd=os.path.dirname(gen_path), stdout=subprocess.PIPE, stderr=subprocess.PIPE,
+                              text=True, start_new_session=True)
+        try:
+            so, se = pp.communicate(timeout=timeout)
+        except subprocess.TimeoutExpired:
+            try:
+                os.killpg(pp.pid, signal.SIGKILL)
+            except OSError:
+                pass
+            pp.communicate()
+            raise
+        p = subprocess.CompletedProcess(cmd, pp.returncode, so, se)
     except subprocess.TimeoutExpired:
         return dict(cmd=' '.join(cmd), tool_errors=['verus timed out after %ds' % timeout],
                     failures=[], functions={}, verified=0, errors=0, wall_s=time.time() - t0,
